@@ -43,13 +43,27 @@ def child_list_rules(eng: Engine, ck: Check, rule: str):
         ck.ob(rule, f, st, 'the child list is re-bound only at construction (a rebuild may only drop the very peer object that closed)',
               ok, f'`{unparse(st)[:90]}` in {f.qualname}: removing by anything but object identity can drop a live child',
               construct=f'{f.qualname} rebinds children')
-    for f, call in rems:
-        ok = f.qualname == f'{DN}._remove_child' and call_name(call) == 'remove' and len(call.args) == 1 and unparse(call.args[0]) in f.params
-        ck.ob(rule, f, call, 'children shrink only in _remove_child, by removing the very peer object', ok,
-              f'`{unparse(call)}` in {f.qualname}', construct=f'{f.qualname} {call_name(call)} children')
+    # removal events: `children.remove(<peer>)` written in _on_state_changed itself, or in a helper that removes its parameter and is
+    # called from _on_state_changed only
     sc = eng.func(DIST, f'{DN}._on_state_changed')
     ck.visited(sc)
-    rc = calls_on(sc.node, '_remove_child')
+    rc = []
+    for f, call in rems:
+        by_identity = call_name(call) == 'remove' and len(call.args) == 1 and isinstance(call.args[0], ast.Name)
+        if f is sc:
+            ok = by_identity
+            if ok:
+                rc.append(call)
+        else:
+            ok = by_identity and f.cls is dn and call.args[0].id in f.params and not eng.guards_at(f, call)
+            if ok:
+                for caller, x_, how_ in eng.res.callers_of(f):
+                    if caller is sc and how_ == 'call':
+                        rc.append(x_)
+                    else:
+                        ok = False
+        ck.ob(rule, f, call, 'children shrink only when _on_state_changed removes the very peer object (directly or through a helper only it calls)', ok,
+              f'`{unparse(call)}` in {f.qualname}', construct=f'{f.qualname} {call_name(call)} children')
     ck.floor(rule + '.closed', len(rc), 1)
     for call in rc:
         gs = eng.guards_at(sc, call)
@@ -211,18 +225,16 @@ def run(eng: Engine, ck: Check):
         r_ = pfind(fn.node, '$root, $level = self._get_advertised_branch_values()')
         return (r_[0][1]['root'], r_[0][1]['level']) if len(r_) == 1 else None
 
-    def request_with(fn: FuncInfo, cls_name: str, arg_expr: str) -> list:
+    def request_with(fn: FuncInfo, cls_name: str, arg_expr: str, within=None) -> list:
         out_ = []
-        for x_ in calls_in(fn.node):
+        for x_ in calls_in(within if within is not None else fn.node):
             if call_name(x_) == 'Request' and unparse(x_.func) == f'{cls_name}.Request' and x_.args and unparse(expand_aliases(fn, x_.args[0])) == arg_expr:
                 out_.append(x_)
             elif call_name(x_) == 'Request' and unparse(x_.func) == f'{cls_name}.Request' and x_.args and unparse(x_.args[0]) == arg_expr:
                 out_.append(x_)
         return out_
     nsp = eng.func(DIST, f'{DN}._notify_server_of_parent')
-    ncb = eng.func(DIST, f'{DN}._notify_children_of_branch_values')
     ck.visited(nsp)
-    ck.visited(ncb)
     pr = advertised_pair(nsp)
     tg = [x_ for x_ in calls_in(nsp.node) if unparse(x_.func) == 'ToggleParentSearch.Request' and x_.args and isinstance(x_.args[0], ast.Name)]
     SFP = tg[0].args[0].id if len(tg) == 1 else 'search_for_parent'
@@ -236,17 +248,34 @@ def run(eng: Engine, ck: Check):
     sends = calls_on(nsp.node, 'send_server_messages')
     ck.ob('R-C13-ADVERT', nsp, nsp.node, 'the three messages are sent unconditionally', len(sends) == 1 and not eng.guards_at(nsp, sends[0]), '',
           construct='server notification unconditional')
-    pr = advertised_pair(ncb)
-    ok = pr is not None and len(request_with(ncb, 'DistributedBranchLevel', pr[1])) == 1 and len(request_with(ncb, 'DistributedBranchRoot', pr[0])) == 1 and \
-        len(calls_on(ncb.node, 'send_messages_to_children')) == 1
-    ck.ob('R-C13-ADVERT', ncb, ncb.node, 'children are told DistributedBranchLevel(level), DistributedBranchRoot(root) from the advertised position', ok, '',
-          construct='children notification content')
+    # children notifications: every send_messages_to_children that carries the branch messages, wherever it is written (a helper of
+    # its own today); its content must be the advertised pair computed in the same function
+    child_sends: dict[str, list] = {}
+    for fn_ in dn.methods.values():
+        for call in calls_on(fn_.node, 'send_messages_to_children'):
+            if any(unparse(x_.func) in ('DistributedBranchLevel.Request', 'DistributedBranchRoot.Request') for x_ in calls_in(call)):
+                if 'DistributedBranchLevel.Request(0)' in unparse(call):
+                    continue        # literal form on a no-parent path (accepted below in notifies())
+                pr = advertised_pair(fn_)
+                ok = pr is not None and len(request_with(fn_, 'DistributedBranchLevel', pr[1], within=call)) == 1 and \
+                    len(request_with(fn_, 'DistributedBranchRoot', pr[0], within=call)) == 1
+                ck.visited(fn_)
+                ck.ob('R-C13-ADVERT', fn_, call, 'children are told DistributedBranchLevel(level), DistributedBranchRoot(root) from the advertised position', ok, '',
+                      construct='children notification content')
+                if ok:
+                    child_sends.setdefault(fn_.name, []).append(call)
+    ck.floor('R-C13-ADVERT.child_sends', len(child_sends), 1)
+    # a helper that does nothing but (unconditionally) notify the children counts as the notification where it is called
+    child_notifiers = {nm_ for nm_, calls_ in child_sends.items() if len(calls_) == 1 and not eng.guards_at(dn.methods[nm_], calls_[0])
+                       and not any(isinstance(a_, (ast.For, ast.While, ast.Try)) for a_ in ancestors(calls_[0]))}
 
     # every change of an input of the position must be followed by BOTH notifications
     def notifies(fn: FuncInfo, kinds=('server', 'children')):
         c = eng.cfg(fn)
         srv = [n for call in calls_on(fn.node, '_notify_server_of_parent') for n in c.nodes_for(call)]
-        chl = [n for call in calls_on(fn.node, '_notify_children_of_branch_values') for n in c.nodes_for(call)]
+        chl = [n for call in calls_in(fn.node) if call_name(call) in child_notifiers and call_name(call) != fn.name and
+               isinstance(call.func, ast.Attribute) and unparse(call.func.value) == 'self' for n in c.nodes_for(call)]
+        chl += [n for call in child_sends.get(fn.name, []) for n in c.nodes_for(call)]
         # literal form on the no-parent path: send_messages_to_children(DistributedBranchLevel.Request(0), DistributedBranchRoot.Request(<own name>))
         for call in calls_on(fn.node, 'send_messages_to_children'):
             s = unparse(call)
@@ -295,6 +324,9 @@ def run(eng: Engine, ck: Check):
                   construct=f'{f.qualname}: {what} change -> notify {kind}')
     from .c14 import fanout_rules
     fanout_rules(eng, ck, 'R-C13-ADVERT')
+    from . import defs
+    defs.queue_messages_definition(eng, ck, 'R-C13-ADVERT')
+    defs.network_send_helpers(eng, ck, 'R-C13-ADVERT')
     osi = eng.func(DIST, f'{DN}._on_session_initialized')
     ok = any(not eng.guards_at(osi, call) for call in calls_on(osi.node, '_notify_server_of_parent'))
     ck.ob('R-C13-ADVERT', osi, osi.node, 'the initial position is advertised to the server after login', ok, '', construct='initial advert')
